@@ -73,7 +73,7 @@ class WorldC11(World):
     STATE_CHANGING = ('build', 'cycle', 'decode_twice', 'edit')
     STATE_RULE = 'per object: (class, nesting depth, number of completed encode/decode cycles bucket)'
     PROBES = ('decode-same-dict-twice', 'cycles>=3', 'nested-depth>=3', 'shared-species-in-reactions', 'statmech-with-references',
-              'statmech-with-misc-models', 'empirical-with-cov-model', 'edit-then-encode', 'via-text', 'via-dict') + \
+              'statmech-with-misc-models', 'empirical-with-cov-model', 'edit-then-encode', 'via-text', 'via-dict', 'nasa9-segments-not-ascending', 'scrambled-first-decode') + \
         tuple('class-' + k for k in ALL_KINDS)
     REAL = ('pmutt.io.json (pmuttEncoder, json_to_pmutt, type_to_class, remove_class)', 'to_dict/from_dict of every class built',
             'json module', 'every get_* getter of the built objects')
@@ -184,7 +184,7 @@ class WorldC11(World):
                  'elements': rng.choice([{'H': 2, 'O': 1}, {'C': 1, 'O': 1}]), 'notes': rng.choice([None, 'fit']),
                  'smiles': rng.choice([None, 'O']), 'scale': round(u(0.7, 1.3), 3),
                  'n_sites': None if (kind == 'Shomate' and not allow('C11-shomate-n_sites')) else rng.choice([None, 1, 2]),
-                 'misc': None, 'segments': rng.randint(1, 3)}
+                 'misc': None, 'segments': rng.randint(1, 3), 'seg_order': rng.choice(['ascending', 'ascending', 'descending'])}
             if r() < 0.3:
                 d['misc'] = [self.gen_desc(rng, 'PiecewiseCovEffect', depth + 1)
                              for _ in range(rng.randint(1, 2))]
@@ -341,8 +341,11 @@ class WorldC11(World):
                                  cat_site=self.build(d['cat_site']) if d.get('cat_site') else None, **kw)
             if k == 'Nasa9':
                 edges = [200.0, 1000.0, 3000.0, 6000.0]
-                segs = [nasa.SingleNasa9(T_low=edges[i], T_high=edges[i + 1], a=np.array([v * s for v in N9_A]))
+                segs = [nasa.SingleNasa9(T_low=edges[i], T_high=edges[i + 1], a=np.array([v * s * (1 + 0.01 * i) for v in N9_A]))
                         for i in range(int(d['segments']))]
+                if d.get('seg_order') == 'descending':
+                    segs.reverse()
+                    self.ctx.probe('nasa9-segments-not-ascending')
                 return nasa.Nasa9(nasas=segs, n_sites=d['n_sites'] or 1, **kw)
             return sho.Shomate(T_low=298.0, T_high=1700.0, a=np.array([v * s for v in SHO_A]), units='J/mol/K',
                                n_sites=d['n_sites'], **kw)
@@ -439,6 +442,19 @@ class WorldC11(World):
                     ident[a] = _plain(getattr(obj, a))
                 except Exception as e:
                     ident[a] = ('EXC', type(e).__name__)
+        nasas = getattr(obj, 'nasas', None)
+        if isinstance(nasas, (list, tuple)):
+            try:
+                ident['segments-in-order'] = [[float(n.T_low), float(n.T_high)] for n in nasas]
+            except Exception as e:
+                ident['segments-in-order'] = ('EXC', type(e).__name__)
+        for nm in ('get_CpoR', 'get_HoRT', 'get_SoR'):
+            fn = getattr(obj, nm, None)
+            if callable(fn) and type(obj).__name__ in ('Nasa', 'Nasa9', 'Shomate'):
+                try:
+                    out[nm + '@1000K'] = _plain(fn(T=1000.0))       # a segment boundary of the generated species
+                except Exception as e:
+                    out[nm + '@1000K'] = ('EXC', type(e).__name__)
         to_string = getattr(obj, 'to_string', None)
         if callable(to_string):
             try:
@@ -547,12 +563,49 @@ class WorldC11(World):
             if d != snap:
                 raise Violation('input-dict-unchanged', '%s: json_to_pmutt altered the dictionary it was given '
                                 '(keys now %s, were %s)' % (kind, sorted(d)[:8], sorted(snap)[:8]))
+            self.compare('%s first decode' % kind, before, self.observe(o1), cls0, o1)
+            # the caller goes on to use (and edit) the first decoded object; a later decode of the same dictionary must
+            # not see those edits.  Attributes are re-bound, never mutated in place, so the input dictionary is not touched.
+            if self._scramble(o1):
+                ctx.probe('scrambled-first-decode')
+            if d != snap:
+                raise Violation('input-dict-unchanged', '%s: re-binding attributes of the decoded object changed the '
+                                'dictionary it was decoded from' % kind)
             o2 = self.real(pj.json_to_pmutt, d, _what='json_to_pmutt(same dict of %s, second time)' % kind,
                            _inv='decodes')
-            self.compare('%s first decode' % kind, before, self.observe(o1), cls0, o1)
             self.compare('%s second decode of the same dictionary' % kind, before, self.observe(o2), cls0, o2)
             return 'twice'
         raise Skip()
+
+    def _scramble(self, obj, depth=0, seen=None):
+        """Re-bind numeric attributes of a decoded object graph to other values (no in-place mutation)."""
+        import numpy as np
+        seen = seen if seen is not None else set()
+        if id(obj) in seen or depth > 3 or not hasattr(obj, '__dict__'):
+            return 0
+        seen.add(id(obj))
+        n = 0
+        for k, v in list(vars(obj).items()):
+            try:
+                if isinstance(v, bool) or v is None or isinstance(v, str):
+                    continue
+                if isinstance(v, (int, float)):
+                    setattr(obj, k.lstrip('_') if hasattr(type(obj), k.lstrip('_')) else k, v * 1.5 + 1)
+                    n += 1
+                elif isinstance(v, dict) and v and all(isinstance(x, (int, float)) and not isinstance(x, bool) for x in v.values()):
+                    setattr(obj, k, {kk: vv * 1.5 + 1 for kk, vv in v.items()})
+                    n += 1
+                elif isinstance(v, np.ndarray) and v.dtype.kind == 'f' and k.lstrip('_') not in ('vib_wavenumbers',):
+                    setattr(obj, k, v * 1.5 + 1)
+                    n += 1
+                elif isinstance(v, (list, tuple)):
+                    for x in v:
+                        n += self._scramble(x, depth + 1, seen)
+                else:
+                    n += self._scramble(v, depth + 1, seen)
+            except Exception:
+                continue
+        return n
 
     def abstract_state(self):
         return [(m['kind'], min(m['depth'], 4), min(m['cycles'], 4)) for k, m in sorted(self.meta.items())]
